@@ -263,11 +263,33 @@ func (c *C10Case) Run() string {
 	if m := unchanged(); m != "" {
 		return desc + ": " + m
 	}
-	if rd, ok := res.(*tensor.Dense); ok && len(c.Ops) > 1 {
+	isOperand := false
+	if rd, ok := res.(*tensor.Dense); ok {
 		for _, t := range ts {
 			if rd == t {
-				return desc + ": returned one of its operands"
+				isOperand = true
+				if len(c.Ops) > 1 {
+					return desc + ": returned one of its operands"
+				}
 			}
+		}
+	}
+	// the result is a new array: overwriting it leaves the operands as they were
+	if rd, ok := res.(*tensor.Dense); ok && !isOperand && d.Name != "unsafe.Pointer" {
+		for k, cc := range coordsOf(want.Shape) {
+			nv := conv(d, 200+int64(k%20))
+			if d.Name == "bool" {
+				nv = !(want.E[k].(bool))
+			} else if eqVal(nv, want.E[k]) {
+				nv = conv(d, 230)
+			}
+			var serr error
+			if pan := try(func() { serr = rd.SetAt(nv, cc...) }); pan != "" || serr != nil {
+				return desc + fmt.Sprintf(": writing the result at %v failed: %v %v", cc, pan, serr)
+			}
+		}
+		if m := unchanged(); m != "" {
+			return desc + ": after overwriting the result: " + m
 		}
 	}
 	return ""
@@ -308,18 +330,31 @@ func genC10(rt *rapid.T, op string, d DT, unfit bool) *C10Case {
 		if c.Axis >= 0 {
 			n = shape[c.Axis]
 		}
+		// mostly small counts, now and then larger ones (bulk-copy paths work in blocks)
+		maxRep := 3
+		if rapid.IntRange(0, 3).Draw(rt, "bigrep") == 0 {
+			maxRep = 17
+		}
 		if rapid.Bool().Draw(rt, "uniform") {
-			c.Repeats = []int{rapid.IntRange(1, 3).Draw(rt, "rep")}
+			c.Repeats = []int{rapid.IntRange(1, maxRep).Draw(rt, "rep")}
 		} else {
 			c.Repeats = make([]int, n)
 			tot := 0
 			for i := range c.Repeats {
-				c.Repeats[i] = rapid.IntRange(0, 3).Draw(rt, "rep")
+				c.Repeats[i] = rapid.IntRange(0, maxRep).Draw(rt, "rep")
 				tot += c.Repeats[i]
 			}
 			if tot == 0 {
 				c.Repeats[0] = 1
 			}
+		}
+		if rapid.IntRange(0, 4).Draw(rt, "masked") == 0 && len(shape) > 0 {
+			// a masked operand is repeated by the general (not the bulk-copy) path; its elements are repeated all the same
+			m := make([]bool, prod(shape))
+			for i := range m {
+				m[i] = rapid.Bool().Draw(rt, "m")
+			}
+			c.Ops[0].Mask = m
 		}
 		if unfit {
 			c.Repeats = append(c.Repeats, 1, 2) // wrong number of counts
@@ -330,9 +365,6 @@ func genC10(rt *rapid.T, op string, d DT, unfit bool) *C10Case {
 		return c
 	}
 	nops := rapid.IntRange(1, 4).Draw(rt, "nops")
-	if op == "Stack" && nops == 1 {
-		nops = 2
-	}
 	minRank := 1
 	if op == "Vstack" {
 		minRank = 2
